@@ -18,7 +18,7 @@ Not decided: functoriality / power invariance as numbers (consequences of R12.2 
 """
 import ast
 
-from ..engine.model import AnalysisError, src, walk_own
+from ..engine.model import AnalysisError, const_value, src, walk_own
 from ..engine.flow import Flow
 from ..engine.inline import Inliner, cmp_parts, norm_text
 from ..engine.typestate import EventDomain
@@ -476,6 +476,129 @@ class Checker:
                        'converter does not wrap the computed screw', line=r.lineno)
 
 
+    def r128(self):
+        """Screw / Wrench short-circuit on `frame == frame` (changeFrame returns self; + / - add raw payloads).  The equality is tm.__eq__:
+        when it calls two frames equal that differ by eps, the frame change is skipped and the result is off by about eps (relative), so its
+        closeness threshold must not exceed the property's bound of 1e-8 - absolute, with no relative part above it."""
+        from ..engine.paths import paths_of
+        rep = self.rep
+        BOUND = 1e-8
+        rep.rule('R12.8', 'the frame equality behind the short circuits of changeFrame / + / - (tm.__eq__) calls two frames equal only when they agree '
+                          'to the property\'s bound: closeness threshold <= 1e-8 absolute, relative part <= 1e-8')
+        sites = []
+        for c in (self.screw, self.wrench):
+            for fi in c.methods.values():
+                for n in walk_own(fi.node):
+                    if isinstance(n, ast.Compare) and len(n.ops) == 1 and isinstance(n.ops[0], (ast.Eq, ast.NotEq)) \
+                            and 'frame' in norm_text(n.left) and 'frame' in norm_text(n.comparators[0]):
+                        sites.append((fi, n.lineno))
+        rep.count('R12.8 frame-equality short circuits in Screw / Wrench', len(sites))
+        if not sites:
+            rep.note('R12.8: no frame-equality short circuit left in Screw / Wrench: the threshold of tm.__eq__ is not relied on')
+            return
+        tmc = self.model.cls('basic_robotics.general.faser_transform', 'tm')
+        eq = tmc.methods.get('__eq__')
+        if eq is None:
+            rep.ob('R12.8', sites[0][0], 'tm defines __eq__', False, 'class tm has no __eq__: `frame == frame` is object identity, and equal frames held in two '
+                   'objects are re-expressed through log / exp instead of being recognised (harmless), but a NotEq site would misfire', shape=True)
+            return
+        other = eq.params[1]
+        ps = paths_of(eq.node, eq.params, consts={'isinstance(%s,tm)' % other: True, 'type(%s)==tm' % other: True, 'type(%s)istm' % other: True})
+        n = 0
+        for pth in ps:
+            if pth.ret in (None, '<none>'):
+                continue
+            try:
+                rt = ast.parse(pth.ret_src, mode='eval').body
+            except SyntaxError:
+                rep.ob('R12.8', eq, 'closeness form of tm.__eq__', False, 'returned expression not parsed: %s' % pth.ret[:80], shape=True, line=pth.ret_line)
+                continue
+            if isinstance(rt, ast.Constant) and rt.value is False:
+                continue
+            form = _close_form(rt)
+            n += 1
+            if form is None:
+                rep.ob('R12.8', eq, 'closeness form of tm.__eq__', False, 'the returned comparison %s is not one of: allclose / isclose(...).all() with constant '
+                       'tolerances, exact array equality, max-abs / norm of the difference against a constant' % norm_text(rt)[:90], shape=True, line=pth.ret_line)
+                continue
+            atol, rtol = form
+            ok = atol <= BOUND * (1 + 1e-9) and rtol <= BOUND * (1 + 1e-9)
+            rep.ob('R12.8', eq, 'tm.__eq__ threshold within the 1e-8 bound', ok,
+                   'tm.__eq__ calls two frames equal when they differ by up to atol=%g (+ rtol=%g relative): %d short circuit(s) in Screw / Wrench (first: %s line %d) then '
+                   'skip the frame change for two DIFFERENT frames, leaving coordinates off by up to that amount - above the 1e-8 agreement the property requires'
+                   % (atol, rtol, len(sites), sites[0][0].qualname, sites[0][1]), line=pth.ret_line)
+        rep.floor('R12.8', 'comparison returns of tm.__eq__', n, 1)
+
+
+def _num(e):
+    try:
+        v = const_value(e)
+    except Exception:
+        return None
+    return float(v) if isinstance(v, (int, float)) and not isinstance(v, bool) else None
+
+
+def _close_form(e):
+    """(atol, rtol) of a closeness test between two arrays, or None"""
+    if isinstance(e, ast.Call) and norm_text(e.func) == 'bool' and len(e.args) == 1:
+        return _close_form(e.args[0])
+    if isinstance(e, ast.BoolOp) and isinstance(e.op, ast.And):
+        fs = [_close_form(v) for v in e.values]
+        if any(f is None for f in fs):
+            return None
+        return min(fs, key=lambda f: max(f))           # a conjunction is at least as strict as its strictest member
+    def ac(c):
+        fn = norm_text(c.func)
+        if fn in ('np.allclose', 'numpy.allclose', 'np.isclose', 'numpy.isclose') and len(c.args) >= 2:
+            rtol, atol = 1e-5, 1e-8
+            if len(c.args) >= 3:
+                rtol = _num(c.args[2])
+            if len(c.args) >= 4:
+                atol = _num(c.args[3])
+            for k in c.keywords:
+                if k.arg == 'rtol':
+                    rtol = _num(k.value)
+                elif k.arg == 'atol':
+                    atol = _num(k.value)
+            if rtol is None or atol is None:
+                return None
+            return (atol, rtol), fn.endswith('allclose')
+        return None
+    if isinstance(e, ast.Call):
+        fn = norm_text(e.func)
+        r = ac(e)
+        if r is not None and r[1]:
+            return r[0]
+        if fn in ('np.array_equal', 'numpy.array_equal') and len(e.args) == 2:
+            return (0.0, 0.0)
+        inner = None
+        if fn in ('np.all', 'numpy.all') and len(e.args) == 1:
+            inner = e.args[0]
+        elif isinstance(e.func, ast.Attribute) and e.func.attr == 'all' and not e.args:
+            inner = e.func.value
+        if inner is not None:
+            if isinstance(inner, ast.Call):
+                r = ac(inner)
+                if r is not None and not r[1]:
+                    return r[0]
+            if isinstance(inner, ast.Compare) and len(inner.ops) == 1 and isinstance(inner.ops[0], ast.Eq):
+                return (0.0, 0.0)
+            if isinstance(inner, ast.Compare) and len(inner.ops) == 1 and isinstance(inner.ops[0], (ast.Lt, ast.LtE)):
+                c = _num(inner.comparators[0])
+                if c is not None and 'abs' in norm_text(inner.left):
+                    return (c, 0.0)
+        return None
+    if isinstance(e, ast.Compare) and len(e.ops) == 1:
+        l, r_, op = e.left, e.comparators[0], e.ops[0]
+        if isinstance(op, (ast.Gt, ast.GtE)):
+            l, r_, op = r_, l, ast.Lt()
+        if isinstance(op, (ast.Lt, ast.LtE)):
+            c = _num(r_)
+            t = norm_text(l)
+            if c is not None and ('abs' in t or 'norm' in t) and '-' in t:
+                return (c, 0.0)
+    return None
+
 def _parses(text):
     try:
         ast.parse(text, mode='eval')
@@ -496,6 +619,7 @@ def check(model, rep):
     ck.r122()
     ck.r123()
     ck.r124()
+    ck.r128()
     from .c02 import closure_obligations
     tmcls = model.cls('basic_robotics.general.faser_transform', 'tm')
     helpers = [f for f in model.funcs_in('basic_robotics.general.basic_helpers') if f.name in ('globalToLocal', 'localToGlobal')]
